@@ -1048,6 +1048,9 @@ func vfc17RunScenario(c *vfCase, sc *c17Scenario) {
 	default:
 		tw := time.Now()
 		converged = p.awaitConvergence()
+		if os.Getenv("VERIF_C17_DEBUG") != "" {
+			p.debugDump("debug", fmt.Sprintf("converged=%v", converged))
+		}
 		if converged {
 			c.Count("scenarios:converged")
 			switch d := time.Since(tw); {
@@ -1411,6 +1414,30 @@ func vfc17Directed() []*c17Scenario {
 		{Class: "normal", MyASN: 65536, PeerASN: 65536, PeerAS4: true, HoldS: 3, PeerHoldS: 90,
 			Conns: []c17ConnScript{{OpenStyle: "plain", Fault: "drop-idle", IdleMs: 40}, {OpenStyle: "plain", Fault: "drop-after-msgs", K: 1, RST: true}},
 			Ops:   []c17Op{set(routes...), {Gap: "sleep", GapMs: 90, Kind: "directed", Routes: routes[:1]}, set(routes[1], c17Route{Prefix: "10.7.0.1/32", LocalPref: 300})}},
+		// everything is requested and taken back while the peer still sits on its OPEN reply: the table
+		// the peer builds once the session is up must be empty / hold the last set only
+		{Class: "normal", MyASN: 64512, PeerASN: 64513, PeerAS4: true, HoldS: 90, PeerHoldS: 90,
+			Conns: []c17ConnScript{{OpenStyle: "plain", HoldOpenMs: 300}}, Ops: []c17Op{set(routes[0]), set()}},
+		{Class: "normal", MyASN: 64512, PeerASN: 64512, PeerAS4: true, HoldS: 90, PeerHoldS: 90,
+			Conns: []c17ConnScript{{OpenStyle: "plain", HoldOpenMs: 300}}, Ops: []c17Op{set(), set(routes...), set(), set(routes[1]), set()}},
+		{Class: "normal", MyASN: 64512, PeerASN: 64513, PeerAS4: false, HoldS: 90, PeerHoldS: 90,
+			Conns: []c17ConnScript{{OpenStyle: "plain", HoldOpenMs: 300}}, Ops: []c17Op{set(routes...), set(), set(routes[0])}},
+		// the first connection is dropped before anything was requested; while the session waits to
+		// reconnect a route is requested and taken back: the second connection must carry nothing
+		{Class: "normal", MyASN: 64512, PeerASN: 64513, PeerAS4: true, HoldS: 90, PeerHoldS: 90,
+			Conns: []c17ConnScript{{OpenStyle: "plain", Fault: "drop-idle", IdleMs: 10}, {OpenStyle: "plain"}},
+			Ops:   []c17Op{{Gap: "sleep", GapMs: 200, Kind: "directed", Routes: routes[:1]}, set()}},
+		// the first two attempts are refused (unexpected AS): the session sleeps a second before the third;
+		// in that window a route is requested and taken back
+		{Class: "normal", MyASN: 64512, PeerASN: 64513, PeerAS4: true, HoldS: 90, PeerHoldS: 90,
+			Conns: []c17ConnScript{{OpenStyle: "wrong-field"}, {OpenStyle: "wrong-field"}, {OpenStyle: "plain"}},
+			Ops:   []c17Op{{Gap: "sleep", GapMs: 250, Kind: "directed", Routes: routes[:1]}, set()}},
+		{Class: "normal", MyASN: 64512, PeerASN: 64512, PeerAS4: true, HoldS: 90, PeerHoldS: 90,
+			Conns: []c17ConnScript{{OpenStyle: "wrong-cap"}, {OpenStyle: "wrong-cap"}, {OpenStyle: "plain"}},
+			Ops:   []c17Op{{Gap: "sleep", GapMs: 250, Kind: "directed", Routes: routes}, set(routes[1]), set()}},
+		{Class: "normal", MyASN: 64512, PeerASN: 64512, PeerAS4: true, HoldS: 90, PeerHoldS: 90,
+			Conns: []c17ConnScript{{OpenStyle: "plain", Fault: "drop-idle", IdleMs: 10}, {OpenStyle: "plain"}},
+			Ops:   []c17Op{{Gap: "sleep", GapMs: 200, Kind: "directed", Routes: routes}, set(), set(routes[1]), set()}},
 		// Close while the peer sits on its OPEN reply
 		{Class: "normal", MyASN: 64512, PeerASN: 64513, PeerAS4: true, HoldS: 90, PeerHoldS: 90, CloseEarly: true, CloseDelayMs: 20,
 			Conns: []c17ConnScript{{OpenStyle: "plain", HoldOpenMs: 250}}, Ops: []c17Op{set(routes...)}},
